@@ -151,6 +151,8 @@ def exec_step(world, step, idx):
                 except (srv.CrowdedError, srv.ReclaimedError):
                     refused += 1
             ev.notes["bulk_refused"] = refused
+            ev.notes["bulk_side"] = step["side"]
+            ev.notes["bulk_app"] = step["app"]
             ev.notes["bulk"] = len(step["names"])
         except Exception as e:
             import sys as _sys
